@@ -33,10 +33,7 @@ def write_evidence(prop, mod, outcome: engine.RunOutcome, extra: Dict[str, Any],
         if results.get(c.label, {}).get("status") in ("unknown", "hung", "crash")
     ]
     refuted = [c for c in outcome.cases if results.get(c.label, {}).get("status") == "refuted"]
-    nontrivial = [
-        c for c in discharged
-        if (not c.twin) or outcome.twins.get(c.label, {}).get("status") == "refuted"
-    ]
+    nontrivial = [c for c in discharged if outcome.twins.get(c.label, {}).get("status") == "refuted"]
     twins_refuted = [c for c in outcome.cases if outcome.twins.get(c.label, {}).get("status") == "refuted"]
     witness_ok = sum(1 for c in twins_refuted if outcome.twins[c.label].get("witness_ok"))
     paths = sum(int(r.get("paths", 0)) for r in results.values())
@@ -192,6 +189,11 @@ def main(argv=None) -> int:
     if args.no_twins:
         for c in cases:
             c.twin = False
+    elif os.environ.get("VERIF_SPARSE_TWINS") != "1":
+        # every case gets its reachability twin (the property modules mark a sample only; a twin stops at
+        # the first path that evaluates an obligation, so the cost is a few percent)
+        for c in cases:
+            c.twin = True
     all_cases = mod.cases("thorough", 0) if engine.load_known(prop) else None
     outcome = engine.run_cases(prop, mod.__name__, cases, tier, seed, all_cases_for_witness=all_cases)
     outcome.wall_s = time.time() - t0 - float(extra.get("wall_s", 0.0))
